@@ -21,6 +21,7 @@ package header
 import (
 	"fmt"
 	"io"
+	"math"
 	"sort"
 
 	"seehuhn.de/go/sfnt/parser"
@@ -105,6 +106,13 @@ func Read(r io.ReaderAt) (*Info, error) {
 		name := string(buf[:4])
 		offset := uint32(buf[8])<<24 | uint32(buf[9])<<16 | uint32(buf[10])<<8 | uint32(buf[11])
 		length := uint32(buf[12])<<24 | uint32(buf[13])<<16 | uint32(buf[14])<<8 | uint32(buf[15])
+
+		if length > math.MaxUint32-offset {
+			return nil, &parser.InvalidFontError{
+				SubSystem: "sfnt/header",
+				Reason:    "table extends beyond EOF",
+			}
+		}
 
 		if _, exists := h.Toc[name]; exists {
 			return nil, &parser.InvalidFontError{
